@@ -259,9 +259,27 @@ func (w *brWorld) genVote(method string, data []byte) (*relayertypes.Votes, stri
 			sp.Signers = sp.Signers[:len(sp.Signers)-extra]
 		}
 		for i := 0; i < extra; i++ {
-			sp.Marks = append(sp.Marks, n+r.Intn(64*4-n))
+			pos := n + r.Intn(64*4-n)
+			if i == 0 && r.Chance(60) {
+				pos = n // exactly one past the last voter
+			} else if r.Chance(30) {
+				pos = []int{n + 1, 63, 64, 65, 127, 128, 255}[r.Intn(7)]
+				if pos < n {
+					pos = n
+				}
+			}
+			dup := false
+			for _, m := range sp.Marks {
+				dup = dup || m == pos
+			}
+			if !dup {
+				sp.Marks = append(sp.Marks, pos)
+			}
 		}
 		sp.BmLen = 32
+		if mx := maxOf(sp.Marks); mx < 64 && r.Bool() {
+			sp.BmLen = 8
+		}
 	case x < 69:
 		variant = "mark-without-signature"
 		if len(sp.Signers) > 1 {
@@ -293,7 +311,14 @@ func (w *brWorld) genVote(method string, data []byte) (*relayertypes.Votes, stri
 	case x < 78:
 		variant = "wrong-epoch"
 		docEpoch = rel.Epoch + 1
-		if r.Bool() {
+		if rel.Epoch > 0 && r.Chance(60) {
+			variant = "stale-epoch" // a vote produced for an earlier epoch, header and signed document consistent
+			docEpoch = rel.Epoch - 1
+			if rel.Epoch > 1 && r.Bool() {
+				docEpoch = uint64(r.Intn(int(rel.Epoch)))
+			}
+		}
+		if r.Bool() || variant == "stale-epoch" {
 			sp.Epoch = docEpoch
 		}
 	case x < 81:
@@ -408,3 +433,13 @@ func (w *brWorld) quorumOK(sp *voteSpec, method string, data []byte, rel relayer
 var _ = sort.Strings
 var _ = strings.Join
 var _ = big.NewInt
+
+func maxOf(l []int) int {
+	m := -1
+	for _, x := range l {
+		if x > m {
+			m = x
+		}
+	}
+	return m
+}
